@@ -13,7 +13,9 @@
 (* Property layer: AllowedOk(req, resp) = the results (as index sequences  *)
 (* into the response) the client may return with Ok:                       *)
 (*   height request: non-empty, at most `amount`, every element a valid    *)
-(*     header present in the response, heights start, start+1, ...         *)
+(*     header, heights start, start+1, ...; it consists of ALL entries of  *)
+(*     the response up to the end or up to the first bad entry, each used  *)
+(*     exactly once (duplicated heights are never acceptable)              *)
 (*   hash request:   one valid header whose hash is the requested one      *)
 (*   head request:   one valid header                                      *)
 (* Everything else must be an error.  A response that is itself such a run *)
@@ -62,8 +64,14 @@ IsHead(r) == r.kind = "height" /\ r.start = 0
 Injective(s) == \A i, j \in 1..Len(s) : i # j => s[i] # s[j]
 IdxSeqs(n) == UNION {[1..k -> 1..n] : k \in 1..n}
 
+\* The result uses every entry of a prefix of the response exactly once (possibly reordered); the
+\* prefix ends at the end of the response or right before an entry that is not a valid header
+\* (a bad tail may be cut off).  So duplicates - the same header twice, or two different valid
+\* headers of one height - can never be part of an accepted response, and no entry is skipped.
 OkAllowed(r, rs, s) ==
     /\ Len(s) >= 1 /\ Injective(s)
+    /\ \A i \in 1..Len(s) : s[i] <= Len(s)                    \* a permutation of the prefix 1..Len(s)
+    /\ (Len(s) = Len(rs) \/ ~Good(rs[Len(s) + 1]))
     /\ \A i \in 1..Len(s) : Good(rs[s[i]])
     /\ IF IsHead(r) THEN Len(s) = 1
        ELSE IF r.kind = "hash" THEN Len(s) = 1 /\ rs[s[1]] = r.want
